@@ -322,6 +322,58 @@ def gen_random(ctx: Ctx, k):
     return {"mode": mode, "events": evs}
 
 
+def gen_e2e(ctx: Ctx):
+    """small populations for the whole CLI (`Acelyzer.run`, final JSON): plain X events, integer times,
+    nesting depth within the budget.  The CLI merges host events of a pid into one tid before the
+    overlap stage, so only the laminar and the nothing-lost clauses are decided end to end."""
+    rng = ctx.rng
+    mode = "drop" if rng.random() < 0.3 else "tid"
+    evs, uid = [], 0
+    for pid in range(rng.randint(1, 2)):
+        base = rng.randint(0, 3)
+        for i in range(rng.randint(1, 5)):                 # staircase, depth <= 5
+            evs.append(_ev(uid, True, pid, rng.choice([3, 4]), base + i, 12))
+            uid += 1
+        for _ in range(rng.randint(0, 10)):
+            evs.append(_ev(uid, True, pid, rng.choice([3, 4]), rng.randint(0, 30), rng.choice([1, 1, 2, 3, 5, 12])))
+            uid += 1
+    rng.shuffle(evs)
+    return {"mode": mode, "e2e": True, "events": evs}
+
+
+def oracle_e2e(case, res):
+    """laminar lanes in the final JSON; -O tid loses nothing and keeps ts/dur/name"""
+    if res["rc"] != 0 or res["error"] or res["events"] is None:
+        return None, "e2e_not_completed:" + str(res["error"])[:40]
+    out = [e for e in res["events"] if e.get("ph") == "X" and "uid" in e.get("args", {})]
+    lanes = {}
+    for e in out:
+        lanes.setdefault((e["pid"], e["tid"]), []).append(e)
+    for L, evs in lanes.items():
+        for a, b in itertools.combinations(evs, 2):
+            if not lam(_iv(a), _iv(b), TOL):
+                return ("overlap-laminar", f"final JSON lane {L}: uid {a['args']['uid']} {_iv(a)} and uid "
+                                           f"{b['args']['uid']} {_iv(b)} partially overlap"), "e2e_ok"
+    ins = {e[0]: mk_event(e) for e in case["events"]}
+    cnt = {}
+    for e in out:
+        u = e["args"]["uid"]
+        cnt[u] = cnt.get(u, 0) + 1
+        o = ins.get(u)
+        if o is None or cnt[u] > 1:
+            return ("overlap-dropdup", f"final JSON: uid {u} unknown or exported twice"), "e2e_ok"
+        for k in ("ts", "dur", "name"):
+            if o[k] != e[k]:
+                return ("overlap-fields", f"final JSON: uid {u} field {k} changed {o[k]!r} -> {e[k]!r}"), "e2e_ok"
+    if case["mode"] == "tid" and len(cnt) != len(ins):
+        return ("overlap-dropdup", f"final JSON: -O tid lost uid(s) {sorted(set(ins) - set(cnt))[:5]}"), "e2e_ok"
+    return None, "e2e_ok"
+
+
+def run_e2e(case):
+    return stage.e2e([] if case["mode"] == "tid" else ["-O", "drop"], {"in.json": [mk_event(e) for e in case["events"]]})
+
+
 def gen_cases(ctx: Ctx):
     yield from gen_grid_single(ctx)
     yield from gen_grid_lanes(ctx)
@@ -337,6 +389,15 @@ def line(case):
 
 
 def oracle_on_case(ctx: Ctx, case, verbose=False):
+    if case.get("e2e"):
+        res = run_e2e(case)
+        v, tag = oracle_e2e(case, res)
+        ctx.count(tag)
+        if verbose:
+            print("e2e rc:", res["rc"], res["error"], "X events:", len([e for e in (res["events"] or []) if e.get("ph") == "X"]))
+        if v:
+            ctx.violation(v[0], v[1], case)
+        return res
     r = run_real(case)
     v = oracle(case, r)
     if verbose:
@@ -384,6 +445,13 @@ def run(ctx: Ctx):
         if not ctx.search_mode:
             cases.append(case)
             reals.append(canon_real(r))
+    # whole CLI, oracle only (final JSON)
+    import aiu_trace_analyzer.logger as aiulog
+    for _ in range(ctx.n(40, 400)):
+        case = gen_e2e(ctx)
+        oracle_on_case(ctx, case)
+        aiulog.loglevel = -1
+        ctx.case_done(case, key="e2e " + line(case), nontrivial=True)
     if ctx.search_mode or not ctx.driver or not ctx.driver.ok:
         return
     # round(x, 4)
@@ -406,9 +474,9 @@ def shrink(ctx: Ctx, case, classifier):
     evs = list(case["events"])
 
     def bad(es):
-        c = {"mode": case["mode"], "events": es}
+        c = dict(case, events=es)
         try:
-            v = oracle(c, run_real(c))
+            v = oracle_e2e(c, run_e2e(c))[0] if case.get("e2e") else oracle(c, run_real(c))
         except Exception:
             return False
         return v is not None and v[0] == classifier
@@ -420,15 +488,22 @@ def shrink(ctx: Ctx, case, classifier):
             if bad(e2):
                 evs, changed = e2, True
                 break
-    return {"mode": case["mode"], "events": evs}
+    return dict(case, events=evs)
 
 
-LEVEL_TEXT = ("Lean theorems over a model of OverlapDetectionContext (lane state, overlap test on rounded ends, pruning, "
-              "TID re-detection on the next lane, DROP) for all event streams: any two slices the stage emits on one "
-              "(pid,tid) lane are disjoint or nested w.r.t. the rounded ends the code uses (laminar_tid), and -O tid "
-              "emits the input stream elementwise with only the tid field replaced (only_tid_changes). Tied to the code by "
-              "running the really registered sort/overlap stages and the compiled model on the same interval families "
-              "(exhaustive small grids with ties + random populations) and diffing the (uid,tid) output stream and error class.")
+LEVEL_TEXT = ("Lean theorems over an executable model of the registered sub-pipeline sort_events -> detect_partial_overlap_tids -> "
+              "barrier -> detect_partial_overlap_events (lane state, overlap test on rounded ends, pruning, TID re-detection on "
+              "the next lane of the range, DROP, tid-range construction), for ALL event lists: output lanes are laminar on the "
+              "rounded ends and on the true ends up to 0.1 ns (laminar_stage/_tid/_drop/_raw); -O tid emits the sorted input "
+              "elementwise with only tid replaced, a permutation of the input (only_tid_changes); slices sharing an output lane "
+              "shared the input lane (lanes_not_merged); a moved slice partially overlaps an earlier slice of its input lane "
+              "(moved_only_if_offending); -O drop emits a sub-list (drop_sublist) and is total on ts>=0 (drop_total); on ts>=0 no "
+              "assert can fire and the only failure is the lane-budget KeyError (no_assert, no_fuel_exhaustion, error_is_budget); "
+              "an input lane uses at most 5 extra lanes (lane_budget). Tied to the code by running the really registered stages "
+              "and the compiled model on the same interval families (exhaustive small grids with ties, multi-lane grids, random "
+              "populations) and diffing the ordered (uid,tid) output stream and the error class; the oracle decides the "
+              "statement on every real run, plus on the final JSON of whole-CLI runs.")
 LEVEL_NOTE = ("Trusted: Lean kernel; axioms propext, Classical.choice, Quot.sound; the hand-written model is validated against "
-              "the real stages by differential runs only; doubles are exact on the generated grids; lane keys are Python hashes.")
-TECHNIQUE = "Lean 4 proof (state invariant over the event stream, induction on the hop fuel) + model/implementation correspondence run"
+              "the real stages by differential runs only; doubles are exact on the generated grids; lane keys are Python hashes; "
+              "batch composition of the stages is C03's theorem; the converse budget clause is witness+correspondence only.")
+TECHNIQUE = "Lean 4 proof (lane-state invariants over the event stream, induction on the hop fuel, disjoint tid families) + model/implementation correspondence run"
